@@ -1449,3 +1449,70 @@ theorem C04_code_eam_builder_fs_duplicate (mkFn : Pfi → FnRec) (setOrder : Lis
   rfl
 
 end Atsim.C04
+
+/-! ## Code tie: the key of a Finnis-Sinclair `[EAM-Density]` entry (`_parse_eam_fs_density_line.species_func`, regenerated) -/
+namespace Atsim.C04
+open Atsim Atsim.Gen.Logic
+
+namespace FsKey
+
+theorem split_none : ∀ l : List Char, '>' ∉ l → splitChars2 '-' '>' l = [l]
+  | [], _ => rfl
+  | [_], _ => rfl
+  | x :: y :: rest, h => by
+    have hy : y ≠ '>' := by
+      intro e; apply h; simp [e]
+    have ih := split_none (y :: rest) (by
+      intro hm; apply h; exact List.mem_cons_of_mem _ hm)
+    rw [splitChars2, ih]
+    simp [hy]
+
+theorem split_arrow : ∀ a b : List Char, '>' ∉ a → '>' ∉ b →
+    splitChars2 '-' '>' (a ++ '-' :: '>' :: b) = [a, b]
+  | [], b, _, hb => by
+    simp [splitChars2, split_none b hb]
+  | [x], b, _, hb => by
+    have ih := split_arrow [] b (by simp) hb
+    simp only [List.nil_append] at ih
+    simp only [List.cons_append, List.nil_append]
+    rw [splitChars2, ih]
+    simp
+  | x :: z :: a', b, ha, hb => by
+    have hz : z ≠ '>' := by
+      intro e; apply ha; simp [e]
+    have ih := split_arrow (z :: a') b (by
+      intro hm; apply ha; exact List.mem_cons_of_mem _ hm) hb
+    simp only [List.cons_append] at ih ⊢
+    rw [splitChars2, ih]
+    simp [hz]
+
+end FsKey
+
+/-- `"A->B".split("->")`: when neither label holds a `>` the two pieces are the labels, in the order written -/
+theorem C04_code_fs_key_split (a b : String) (ha : '>' ∉ a.toList) (hb : '>' ∉ b.toList) :
+    pySplit2 (a ++ "->" ++ b) '-' '>' = [a, b] := by
+  have h2 : ("->" : String).toList = ['-', '>'] := by decide
+  unfold pySplit2
+  rw [String.toList_append, String.toList_append, h2, List.append_assoc]
+  show List.map String.ofList (splitChars2 '-' '>' (a.toList ++ '-' :: '>' :: b.toList)) = [a, b]
+  rw [FsKey.split_arrow _ _ ha hb]
+  simp
+
+/-- **code tie**: the key `A->B` is read as (from = A, to = B): the text BEFORE the arrow is the central species whose density dictionary gets the entry, the text after it
+the neighbour under which it is stored (`C04_builder`, `C04_code_eam_builder_fs`); labels may hold `-` and digits (`O2-->U4+`); blank labels are refused -/
+theorem C04_code_fs_key (a b : String) (ha : '>' ∉ a.toList) (hb : '>' ∉ b.toList) :
+    fs_species_func Atsim.strip (a ++ "->" ++ b) =
+      (if Atsim.strip a ≠ "" ∧ Atsim.strip b ≠ "" then .ok (Atsim.strip a, Atsim.strip b) else .error CfgErr.blankSpecies) := by
+  unfold fs_species_func
+  rw [C04_code_fs_key_split a b ha hb]
+  by_cases h1 : Atsim.strip a = "" <;> by_cases h2 : Atsim.strip b = "" <;> simp [h1, h2]
+
+/-- a key without an arrow, or with more than one, is refused -/
+theorem C04_code_fs_key_arity (k : String) (h : (pySplit2 k '-' '>').length ≠ 2) :
+    fs_species_func Atsim.strip k = .error CfgErr.notTwoParts := by
+  unfold fs_species_func
+  have h' : ¬ (((pySplit2 k '-' '>').length : Nat) : Int) = 2 := by
+    intro e; apply h; exact_mod_cast e
+  simp [h']
+
+end Atsim.C04
